@@ -27,6 +27,7 @@ def run(ctx, rep):
         check_arith_cast(crate, rep, cfg)
         check_zero(crate, rep, cfg)
         check_len_agreement(crate, rep, cfg)
+        check_clamp_bounds(crate, rep, cfg)
 
 
 def is_char_index_call(name):
@@ -248,6 +249,37 @@ def check_zero(crate, rep, cfg):
                 n += 1
     rep.add("C14.ZERO", "C14.ZERO:vm:undefined-bounds", n >= 3, vm.where(0), "the VM's Slice arm reports undefined start / end / step as errors (%d message sites)" % n
             + ("" if n >= 3 else " — VIOLATED"))
+
+
+def check_clamp_bounds(crate, rep, cfg):
+    """C14.ARITH — the clamp interval of slice_items is the one Python prescribes: [0, len] for a positive step, [-1, len - 1] for a negative one
+    (for an empty sequence that is [-1, -1]: nothing selected, nothing indexed). Any widening of it (a `.max(0)` on the upper bound, say) lets
+    the loop read items[0] of an empty slice."""
+    si = crate.one("value::Value::slice::slice_items")
+    tr = Tracer(si, transparent=None)
+    pairs = []
+    for bb, idx, st in si.stmts():
+        if idx != "t" and st.get("k") == "assign" and st["rv"]["k"] == "agg" and st["rv"].get("ak") == "tuple" and len(st["rv"]["ops"]) == 2 and \
+                all(o["k"] == "const" or "i128" in si.local_ty(o["pl"]["l"]) for o in st["rv"]["ops"]):
+            lo, hi = tr.operand(st["rv"]["ops"][0]), tr.operand(st["rv"]["ops"][1])
+            if lo and all(l.kind == "const" for l in lo):
+                pairs.append((bb, idx, {str(l.detail[1]) for l in lo}, hi))
+    got = {}
+    for bb, idx, lo, hi in pairs:
+        if lo == {"0"}:
+            got["pos"] = bool(hi) and all(l.kind == "call" and l.detail[0].endswith("::len") and any(p.startswith("cast:IntToInt:usize->i128") for p in l.projs) for l in hi)
+        elif lo == {"-1"}:
+            ok = bool(hi) and all(l.kind == "op" and l.detail[1] in ("Sub", "SubWithOverflow") for l in hi)
+            for l in hi:
+                if l.kind == "op":
+                    rv = si.blocks[l.detail[2]]["s"][l.detail[3]]["rv"]
+                    ll = tr.operand(rv["l"])
+                    ok = ok and rv["r"]["k"] == "const" and str(rv["r"].get("v")) == "1" and bool(ll) and \
+                        all(x.kind == "call" and x.detail[0].endswith("::len") for x in ll)
+            got["neg"] = ok
+    ok = got.get("pos") is True and got.get("neg") is True
+    rep.add("C14.ARITH", "C14.ARITH:slice_items:clamp-bounds", ok, si.where(pairs[0][0]) if pairs else si.where(0), "the clamp interval is exactly (0, len) for step > 0 and "
+            "(-1, len - 1) for step < 0, len being items.len() (%s)" % got + ("" if ok else " — VIOLATED: with another interval an empty or short sequence can be indexed out of range"))
 
 
 def check_len_agreement(crate, rep, cfg):
